@@ -58,8 +58,8 @@ def run_property(pid: str, ctx: Ctx, tier: str) -> Report:
     rep = Report(pid, tier)
     mod = importlib.import_module(f"sa.rules.{pid.lower()}")
     mod.run(ctx, rep)
-    from .rules import wave3, sweep2, sweep3, sweep4, round10
-    for ext in (wave3, sweep2, sweep3, sweep4, round10):
+    from .rules import wave3, sweep2, sweep3, sweep4, round10, sweep5
+    for ext in (wave3, sweep2, sweep3, sweep4, round10, sweep5):
         for fn, rule, *extra in ext.EXTRA.get(pid, []):
             fn(ctx, rep, rule, *extra)
     return rep
